@@ -296,6 +296,7 @@ class Weights(Family):
 
 
 class BigBlockWeight(Family):
+    no_history_pool = True       # cases are too heavy to be replayed in every ordered pair
     name = 'block_weight_large'
     nontrivial_rule = 'transaction count needs a 3-byte CompactSize'
 
